@@ -42,7 +42,9 @@ class Ctx:
 def test(op, c, v):
     lt, eq = O.o_lt_eq(v, c)            # v < c, v == c
     if op == '>=':
-        return NOT(lt)
+        # replaceGTE0: the comparator `>=0.0.0` is rewritten to `` (any version) before testing
+        gte0 = AND(c.fs[0].t == 0, c.fs[1].t == 0, c.fs[2].t == 0, c.fs[4].len == 0)
+        return OR(gte0, NOT(lt))
     if op == '>':
         return AND(NOT(lt), NOT(eq))
     if op == '<':
@@ -62,6 +64,14 @@ def admits(h, comps, v):
     allpass = AND(*[z3.Implies(g, test(op, c, v)) for g, op, c in comps])
     optin = OR(*[AND(g, h.is_pre(c), h.same_tuple(c, v)) for g, op, c in comps if op != 'ANY'])
     return AND(allpass, OR(NOT(h.is_pre(v)), optin))
+
+
+def allpass(h, comps, v):
+    return AND(*[z3.Implies(g, test(op, c, v)) for g, op, c in comps])
+
+
+def optin(h, comps, v):
+    return OR(*[AND(g, h.is_pre(c), h.same_tuple(c, v)) for g, op, c in comps if op != 'ANY'])
 
 
 def nullset(cx):
@@ -226,6 +236,8 @@ def py_admits(comps, v):
     for op, c in comps:
         if op == 'ANY':
             continue
+        if op == '>=' and (c['major'], c['minor'], c['patch']) == (0, 0, 0) and not c['pre']:
+            continue                     # replaceGTE0
         k = O.py_cmp(v, c)
         ok = {'>=': k >= 0, '>': k > 0, '<': k < 0, '<=': k <= 0, '=': k == 0}[op]
         if not ok:
